@@ -13,9 +13,13 @@ open Rx Py
 namespace Reader
 
 /-- `Reader(text)`: reserved code points become blanks, then the text is split into lines. -/
-def ofText (text : Str) : Reader :=
+def ofText (text : Str) (depth : Nat := 0) : Reader :=
   let t := text.map fun c => if c.toNat ≤ 2 then ' ' else c
-  { rest := Gen.P.io_Reader_init_0.split t }
+  { rest := Gen.P.io_Reader_init_0.split t, depth := depth }
+
+/-- `reader.nesting()`: the line-macro expansions the cursor is inside, those around an enclosing container included (the
+    pruning of the list that the Python does here is repeated by every later use, so it is not recorded) -/
+def nesting (r : Reader) : Nat := r.depth + (r.expansions.dropWhile fun e => r.pos ≥ e).length
 
 def eof (r : Reader) : Bool := r.rest.isEmpty
 
@@ -47,7 +51,7 @@ def isEscaped (r : Reader) : Bool := r.escaped == some r.pos
 /-- `reader.insertExpansion(lines, maxDepth)` -/
 def insertExpansion (r : Reader) (lines : List Str) (maxDepth : Nat) : M (Bool × Reader) :=
   let exps := r.expansions.dropWhile fun e => r.pos ≥ e
-  if exps.length ≥ maxDepth then pure (false, { r with expansions := exps })
+  if r.depth + exps.length ≥ maxDepth then pure (false, { r with expansions := exps })
   else
     match r.rest with
     | [] => raise (.indexError "reader.lines[pos:pos]")
@@ -528,6 +532,8 @@ def blockExpand (d : BlockDef) : M Expand := do
     the final reset of the consumed block options. -/
 def renderBlockBody (rec : Rec) (env : Env) (d : BlockDef) (mt : Match) (reader : Reader) (writer : Writer) :
     M (Reader × Writer) := do
+  -- line-macro expansions enclosing the opening line (passed on to the content of a container)
+  let nesting := reader.nesting
   -- Process opening delimiter.
   let (delimiterText, closeMatch) ← match d.delimiterFilter with
     | .none => pure (([] : Str), d.closeMatch)
@@ -555,7 +561,7 @@ def renderBlockBody (rec : Rec) (env : Env) (d : BlockDef) (mt : Match) (reader 
       let opentag0 ← if isHtml then pure d.openTag else injectHtmlAttributes d.openTag
       let text3 ← if expand.container == some true then do
           modify fun s => { s with opts := { s.opts with container := none } }
-          rec.document text2
+          rec.document nesting text2
         else do
           let t ← replaceInline rec env text2 expand
           if isHtml then htmlSafeModeFilter t else pure t
@@ -791,21 +797,21 @@ def documentLoop (rec : Rec) (env : Env) : Nat → Reader → Writer → M Write
     documentLoop rec env fuel reader writer
 
 /-- `document.render(source)` with the loop fuel given. -/
-def documentRender (rec : Rec) (env : Env) (fuel : Nat) (source : Str) : M Str := do
-  let w ← documentLoop rec env fuel (Reader.ofText source) {}
+def documentRender (rec : Rec) (env : Env) (fuel : Nat) (source : Str) (nesting : Nat := 0) : M Str := do
+  let w ← documentLoop rec env fuel (Reader.ofText source nesting) {}
   return w.toStr
 
 /-- Ties the recursion: level `n+1` may nest `n` further span / document renders. -/
 def mkRec (env : Env) : Nat → Rec
-  | 0 => { spans := fun _ => raise .outOfFuel, document := fun _ => raise .outOfFuel }
+  | 0 => { spans := fun _ => raise .outOfFuel, document := fun _ _ => raise .outOfFuel }
   | n+1 =>
     { spans := fun s => spansRender (mkRec env n) env s,
-      document := fun s => documentRender (mkRec env n) env (n+1) s }
+      document := fun d s => documentRender (mkRec env n) env (n+1) s d }
 
 /-- The exported `rimu.render(source, opts)`. -/
 def apiRender (env : Env) (fuel : Nat) (source : Str) (opts : RenderOptions := {}) : M Str := do
   if (← get).safeMode == -1 then documentInit
   updateFrom opts
-  (mkRec env fuel).document source
+  (mkRec env fuel).document 0 source
 
 end Rimu
